@@ -26,7 +26,7 @@ ASSUMPTIONS = [
     "symbolic results are compared after sympy.expand/Poly with symbols identified by name",
 ]
 
-QUICK = ["sys3_q", "sys2_q", "orders_q", "frac_q", "phase_q", "hist_q"]
+QUICK = ["sys3_q", "sys2_q", "orders_q", "frac_q", "hist_q"]
 THOROUGH = ["sys3_t", "sys2_t", "cstr_t", "orders_t", "frac_t", "phase_t", "feedmap_t", "hist_t"]
 # coverage (vacuity guard) is read on the small slice that takes all three generator actions
 ACTIONS = {
@@ -36,16 +36,31 @@ ACTIONS = {
 
 FN = {"contrib_keys": ("Reaction.rate", "explicit"), "contrib_default": ("Reaction.rate", "default"),
       "rates_keys": ("ReactionSystem.rates", "explicit"), "rates_default": ("ReactionSystem.rates", "default"),
-      "rvals": ("law_of_mass_action_rates", "-"), "dcdt": ("dCdt_list", "-"), "build": ("ReactionSystem", "-")}
+      "rates_again": ("ReactionSystem.rates", "again"), "frame": ("ReactionSystem.rates", "frame"),
+      "rvals": ("law_of_mass_action_rates", "-"), "dcdt": ("dCdt_list", "-"), "build": ("ReactionSystem", "-"),
+      "ovall_contrib": ("Reaction.rate", "ratex"), "ovmixed_contrib": ("Reaction.rate", "ratex-mixed"),
+      "ovall_rates": ("ReactionSystem.rates", "ratexs"), "ovmixed_rates": ("ReactionSystem.rates", "ratexs-mixed"),
+      "st_net": ("net_stoichs", "default"), "st_net_keys": ("net_stoichs", "explicit"),
+      "st_areac": ("active_reac_stoichs", "-"), "st_allreac": ("all_reac_stoichs", "-"),
+      "st_aprod": ("active_prod_stoichs", "-"), "st_allprod": ("all_prod_stoichs", "-"),
+      "st_coeff": ("get_coeff_mtx", "-"), "st_order": ("Reaction.order", "-"), "st_rkeys": ("Reaction.keys", "-")}
+PER_REACTION = ("contrib_keys", "contrib_default", "ovall_contrib", "ovmixed_contrib")
 
 
 def _expected(case, field, mode):
     """Pick (structurally) the expected observation the spec emitted for an observation point."""
     exp = case["exp"]
     if mode in ("int", "float", "frac"):
-        return {"contrib_keys": exp["contrib"], "contrib_default": exp["contrib"],
-                "rates_keys": exp["fed"], "rates_default": exp["fed"],
-                "rvals": exp["rvals"], "dcdt": exp["rates"]}[field]
+        table = {"contrib_keys": exp["contrib"], "contrib_default": exp["contrib"],
+                 "rates_keys": exp["fed"], "rates_default": exp["fed"], "rates_again": exp["fed"],
+                 "frame": exp["frame"], "rvals": exp["rvals"], "dcdt": exp["rates"],
+                 "ovall_contrib": exp["ovall"]["contrib"], "ovall_rates": exp["ovall"]["fed"],
+                 "ovmixed_contrib": exp["ovmixed"]["contrib"], "ovmixed_rates": exp["ovmixed"]["fed"],
+                 "st_net": exp["net"], "st_net_keys": exp["net"], "st_areac": exp["areac"],
+                 "st_allreac": exp["allreac"], "st_aprod": exp["aprod"], "st_allprod": exp["allprod"],
+                 "st_coeff": exp["coeff"], "st_order": exp["order"],
+                 "st_rkeys": [sorted(k) for k in exp["rkeys"]]}
+        return table[field]
     if mode == "sym-num":
         if field == "contrib_keys":
             return [[kc.canon_poly(p) for p in per] for per in exp["rpoly"]]
@@ -64,34 +79,63 @@ def _modes(cin):
     return m
 
 
+def _compare(bad, case, obs, mode, flags):
+    for field, o in sorted(obs.items()):
+        fn, keys = FN[field]
+        if field == "build":
+            bad.append((dict(fn=fn, keys=keys, mode=mode, error=o["raise"], **flags), o, "system builds"))
+            continue
+        want = _expected(case, field, mode)
+        if want is None:
+            continue
+        if field == "st_rkeys" and isinstance(o, list):
+            o = [sorted(k) for k in o]
+        pairs = list(zip(o, want)) if field in PER_REACTION else [(o, want)]
+        for oo, ww in pairs:
+            if oo == ww:
+                continue
+            err = oo["raise"] if kc.is_raise(oo) else ("unencodable" if oo is None else "value")
+            bad.append((dict(fn=fn, keys=keys, mode=mode, error=err, **flags), oo, ww))
+
+
 def replay_case(case):
     """-> list of (key, observed, expected) disagreements."""
     cin = case["in"]
     bad = []
-    flags = {"feed": bool(cin["feed"]["on"]), "untouched": "-u" in case["cls"], "cls": case["cls"],
-             "hist": len(cin.get("hist") or []), "phases": any(cin.get("sphase") or [])}
+    base = {"feed": bool(cin["feed"]["on"]), "untouched": "-u" in case["cls"], "cls": case["cls"],
+            "hist": len(cin.get("hist") or []), "phases": any(cin.get("sphase") or [])}
+    pforms = list(cin.get("pforms") or ["plain"])
+    if cin.get("hist"):
+        pforms = [f for f in pforms if f != "str"]   # a key's value is not re-assigned through Reaction.param
+    containers = list(cin.get("containers") or ["list"])
+    first = True
     for mode in _modes(cin):
         if mode.startswith("sym"):
-            obs = kc.observe_symbolic(cin, mode[4:])
-        else:
-            obs = kc.observe_numeric(cin, mode)
-        for field, o in sorted(obs.items()):
-            fn, keys = FN[field]
-            if field == "build":
-                bad.append((dict(fn=fn, keys=keys, mode=mode, error=o["raise"], **flags), o, "system builds"))
+            _compare(bad, case, kc.observe_symbolic(cin, mode[4:]), mode, dict(base, pform="plain", container="list"))
+            continue
+        for pform in sorted(pforms, key=lambda f: f != "plain"):
+            conts = containers if (pform == "plain" and mode in ("int", "float")) else ["list"]
+            for cont in sorted(conts, key=lambda c: c != "list"):
+                extras = first and pform == "plain" and cont == "list"
+                obs = kc.observe_numeric(cin, mode, pform, cont, extras=extras)
+                if extras:
+                    first = False
+                _compare(bad, case, obs, mode, dict(base, pform=pform, container=cont))
+    if not cin["feed"]["on"] and not cin.get("hist"):
+        mode = _modes(cin)[0]
+        for sel in ("selrev", "selsub"):
+            want = case["exp"][sel]
+            obs = kc.observe_selection(cin, mode, want["keys"])
+            flags = dict(base, pform="plain", container="list")
+            if "build" in obs:
                 continue
-            want = _expected(case, field, mode)
-            if want is None:
-                continue
-            if field.startswith("contrib"):
-                pairs = list(zip(o, want))
-            else:
-                pairs = [(o, want)]
-            for oo, ww in pairs:
-                if oo == ww:
-                    continue
-                err = oo["raise"] if kc.is_raise(oo) else ("unencodable" if oo is None else "value")
-                bad.append((dict(fn=fn, keys=keys, mode=mode, error=err, **flags), oo, ww))
+            for field, fn in (("contrib", "Reaction.rate"), ("rates", "ReactionSystem.rates"), ("net", "net_stoichs")):
+                o, w = obs[field], want[field]
+                pairs = list(zip(o, w)) if field == "contrib" else [(o, w)]
+                for oo, ww in pairs:
+                    if oo != ww:
+                        err = oo["raise"] if kc.is_raise(oo) else ("unencodable" if oo is None else "value")
+                        bad.append((dict(fn=fn, keys=sel, mode=mode, error=err, **flags), oo, ww))
     return bad
 
 
@@ -157,21 +201,23 @@ def _trace_direction(ctx, n):
             continue
         traces.append(tr)
         meta.append((sysd, variant, flags, cin))
-    verdicts = ctx.validate_traces("KineticsTrace", "KineticsTrace.cfg", traces)
-    for tr, (sysd, variant, flags, cin), (v, pos, clause) in zip(traces, meta, verdicts):
-        ctx.ran(cin, nontrivial=True)
-        if v == "accept":
-            continue
-        if clause.startswith("step:") or clause in ("notready", "no-result-event", "shape"):
-            raise core.MachineryFailure("generated trace outside the model: %s at %d: %r" % (clause, pos, tr[pos - 1]))
-        fn = {"rates": "ReactionSystem.rates", "contrib": "Reaction.rate", "dcdt": "dCdt_list",
-              "rvals": "law_of_mass_action_rates", "poly": "ReactionSystem.rates"}[clause]
-        ctx.violation(dict(fn=fn, keys=variant, mode="trace", error="value", clause=clause, **flags),
-                      {"direction": "code->spec", "trace": tr, "system": sysd, "variant": variant,
-                       "observed": tr[-1], "verdict": {"verdict": v, "pos": pos, "clause": clause},
-                       "tlc_cfg": "KineticsTrace.cfg"})
-    if traces:
-        ctx.sample({"trace": traces[0]}, cap=8)
+    def judge(verdicts):
+        for tr, (sysd, variant, flags, cin), (v, pos, clause) in zip(traces, meta, verdicts):
+            ctx.ran(cin, nontrivial=True)
+            if v == "accept":
+                continue
+            if clause.startswith("step:") or clause in ("notready", "no-result-event", "shape"):
+                raise core.MachineryFailure("generated trace outside the model: %s at %d: %r" % (clause, pos, tr[pos - 1]))
+            fn = {"rates": "ReactionSystem.rates", "contrib": "Reaction.rate", "dcdt": "dCdt_list",
+                  "rvals": "law_of_mass_action_rates", "poly": "ReactionSystem.rates"}[clause]
+            ctx.violation(dict(fn=fn, keys=variant, mode="trace", error="value", clause=clause, **flags),
+                          {"direction": "code->spec", "trace": tr, "system": sysd, "variant": variant,
+                           "observed": tr[-1], "verdict": {"verdict": v, "pos": pos, "clause": clause},
+                           "tlc_cfg": "KineticsTrace.cfg"})
+        if traces:
+            ctx.sample({"trace": traces[0]}, cap=8)
+
+    return traces, judge
 
 
 def _suite_direction(ctx):
@@ -184,27 +230,27 @@ def _suite_direction(ctx):
             ctx.skip("suite-call-outside-model: " + r["skip"])
     ctx.counters["suite_rates_calls"] = len(recs)
     ctx.counters["suite_rates_calls_in_model"] = len(traces)
-    if not traces:
-        return
-    verdicts = ctx.validate_traces("KineticsTrace", "KineticsTrace.cfg", [r["trace"] for r in traces])
-    for r, (v, pos, clause) in zip(traces, verdicts):
-        ctx.ran({"suite": r["test"], "trace": r["trace"]}, nontrivial=True)
-        if v == "accept":
-            continue
-        if clause.startswith("step:") or clause in ("notready", "no-result-event", "shape"):
-            ctx.skip("suite-call-outside-model: " + clause)
-            continue
-        ctx.violation(dict(fn="ReactionSystem.rates", keys="suite", mode="suite", error="value", clause=clause,
-                           feed=any(e["ev"] == "Feed" for e in r["trace"]), untouched=False, cls="suite"),
-                      {"direction": "code->spec", "trace": r["trace"], "test": r["test"], "observed": r["trace"][-1],
-                       "verdict": {"verdict": v, "pos": pos, "clause": clause}, "tlc_cfg": "KineticsTrace.cfg"})
+    def judge(verdicts):
+        for r, (v, pos, clause) in zip(traces, verdicts):
+            ctx.ran({"suite": r["test"], "trace": r["trace"]}, nontrivial=True)
+            if v == "accept":
+                continue
+            if clause.startswith("step:") or clause in ("notready", "no-result-event", "shape"):
+                ctx.skip("suite-call-outside-model: " + clause)
+                continue
+            ctx.violation(dict(fn="ReactionSystem.rates", keys="suite", mode="suite", error="value", clause=clause,
+                               feed=any(e["ev"] == "Feed" for e in r["trace"]), untouched=False, cls="suite"),
+                          {"direction": "code->spec", "trace": r["trace"], "test": r["test"], "observed": r["trace"][-1],
+                           "verdict": {"verdict": v, "pos": pos, "clause": clause}, "tlc_cfg": "KineticsTrace.cfg"})
+
+    return [r["trace"] for r in traces], judge
 
 
 def run(ctx):
     slices = QUICK if ctx.quick else THOROUGH
     for sl in slices:
         res = ctx.tlc("Kinetics_MC", "Kinetics_MC_%s.cfg" % sl, require_actions=ACTIONS.get(sl, ()),
-                      require_cases=50, timeout=1500)
+                      require_cases=50, timeout=1500, workers=6 if ctx.quick else 16)
         outs = ctx.pmap(replay_case, res.cases)
         ctx.cases_replayed += len(res.cases)
         for case, bad in zip(res.cases, outs):
@@ -218,8 +264,12 @@ def run(ctx):
         ctx.counters["cases_" + sl] = len(res.cases)
     # every terminal state of every slice is replayed (no sampling)
     ctx.exhaustive = True
-    _trace_direction(ctx, 1500 if ctx.quick else 12000)
-    _suite_direction(ctx)
+    # code -> spec: seeded systems and the calls of the repository's own tests, validated in one batch
+    t1, judge1 = _trace_direction(ctx, 500 if ctx.quick else 10000)
+    t2, judge2 = _suite_direction(ctx)
+    verdicts = ctx.validate_traces("KineticsTrace", "KineticsTrace.cfg", t1 + t2)
+    judge1(verdicts[:len(t1)])
+    judge2(verdicts[len(t1):])
 
 
 def replay(ctx, rec):
